@@ -86,6 +86,20 @@ var fieldMethods = []fieldMethodSpec{
 	{"sipHash", "round", "sipRound", []string{"v0", "v1", "v2", "v3"}, []string{"uint64", "uint64", "uint64", "uint64"}},
 }
 
+// regions: the statements of the block that starts with `<first> := len(…)`, up to (not including) the first
+// statement that assigns to a selector (output.data = …), as a function of the named integer variables to
+// the tuple of the variables listed in `results`. `len(x)` is the free variable named in lenVar.
+type regionSpec struct {
+	fn, leanName   string
+	lenVar         string
+	vars, varTypes []string
+	results        []string
+}
+
+var regions = []regionSpec{
+	{"fnGetRange", "getRangeClamp", "n", []string{"start", "end", "n"}, []string{"int", "int", "int"}, []string{"start", "end"}},
+}
+
 var guards = []guardSpec{
 	{"addInt", "dataStoreCommand", "VALUE_OVERFLOW", "addIntOverflowGuard", []string{"value", "delta"}, []string{"int64", "int64"}},
 	{"fieldAddInt", "dataStoreCommand", "VALUE_OVERFLOW", "fieldAddIntOverflowGuard", []string{"oldInt", "delta"}, []string{"int64", "int64"}},
@@ -196,7 +210,7 @@ func (ev *env) expr(e ast.Expr, want ty) (string, ty) {
 			if !ok {
 				fail(x.Pos(), fset, "field %s is not among the translated fields", x.Sel.Name)
 			}
-			return x.Sel.Name, t
+			return ln(x.Sel.Name), t
 		}
 		fail(x.Pos(), fset, "selector expression")
 	case *ast.Ident:
@@ -207,7 +221,7 @@ func (ev *env) expr(e ast.Expr, want ty) (string, ty) {
 		if !ok {
 			fail(x.Pos(), fset, "unknown identifier %s", x.Name)
 		}
-		return x.Name, t
+		return ln(x.Name), t
 	case *ast.UnaryExpr:
 		s, t := ev.expr(x.X, want)
 		s = ev.resolve(s, t, want, x.Pos())
@@ -366,6 +380,16 @@ func (ev *env) resolve(s string, t, want ty, pos token.Pos) string {
 	return s
 }
 
+// ln: a Go identifier as a Lean identifier (Lean keywords get a trailing underscore)
+func ln(name string) string {
+	switch name {
+	case "end", "at", "then", "else", "fun", "do", "in", "let", "have", "show", "match", "with", "if", "open", "where",
+		"Type", "Prop", "by", "from", "instance", "def", "theorem", "namespace", "section", "variable", "import", "mutual":
+		return name + "_"
+	}
+	return name
+}
+
 func indent(n int) string { return strings.Repeat("  ", n) }
 
 // block translates stmts followed by rest (statements that follow the enclosing `if`)
@@ -409,7 +433,7 @@ func (ev *env) block(stmts []ast.Stmt, depth int) string {
 				if t.width > 0 {
 					z = fmt.Sprintf("0#%d", t.width)
 				}
-				out += fmt.Sprintf("let %s : %s := %s\n%s", n.Name, t.lean(), z, in)
+				out += fmt.Sprintf("let %s : %s := %s\n%s", ln(n.Name), t.lean(), z, in)
 			}
 		}
 		return out + ev.block(rest, depth)
@@ -457,10 +481,15 @@ func (ev *env) block(stmts []ast.Stmt, depth int) string {
 			}
 		}
 		ev.vars[id.Name] = t
-		return fmt.Sprintf("let %s : %s := %s\n%s", id.Name, t.lean(), r, in) + ev.block(rest, depth)
+		return fmt.Sprintf("let %s : %s := %s\n%s", ln(id.Name), t.lean(), r, in) + ev.block(rest, depth)
 	case *ast.IfStmt:
 		if x.Init != nil {
 			fail(x.Pos(), fset, "if with an init statement")
+		}
+		// `if c { v = e } [else if … { v = e' }] [else { v = e'' }]`: a conditional value of v, no copying of the rest
+		if name, val, ok := ev.condAssign(x); ok {
+			t := ev.vars[name]
+			return fmt.Sprintf("let %s : %s := %s\n%s", ln(name), t.lean(), val, in) + ev.block(rest, depth)
 		}
 		c, _ := ev.expr(x.Cond, types["bool"])
 		saved := copyVars(ev.vars)
@@ -480,6 +509,59 @@ func (ev *env) block(stmts []ast.Stmt, depth int) string {
 	}
 	fail(s.Pos(), fset, "statement form %T", s)
 	return ""
+}
+
+// singleAssign: the block is one plain assignment `v = e` to a variable that exists already
+func (ev *env) singleAssign(b *ast.BlockStmt) (string, ast.Expr, bool) {
+	if b == nil || len(b.List) != 1 {
+		return "", nil, false
+	}
+	as, ok := b.List[0].(*ast.AssignStmt)
+	if !ok || as.Tok != token.ASSIGN || len(as.Lhs) != 1 || len(as.Rhs) != 1 {
+		return "", nil, false
+	}
+	id, ok := as.Lhs[0].(*ast.Ident)
+	if !ok {
+		return "", nil, false
+	}
+	if _, known := ev.vars[id.Name]; !known {
+		return "", nil, false
+	}
+	return id.Name, as.Rhs[0], true
+}
+
+func (ev *env) condAssign(x *ast.IfStmt) (name, val string, ok bool) {
+	if x.Init != nil {
+		return "", "", false
+	}
+	n, e, ok := ev.singleAssign(x.Body)
+	if !ok {
+		return "", "", false
+	}
+	t := ev.vars[n]
+	elseVal := ln(n)
+	switch el := x.Else.(type) {
+	case nil:
+	case *ast.BlockStmt:
+		n2, e2, ok2 := ev.singleAssign(el)
+		if !ok2 || n2 != n {
+			return "", "", false
+		}
+		r, rt := ev.expr(e2, t)
+		elseVal = ev.resolve(r, rt, t, el.Pos())
+	case *ast.IfStmt:
+		n2, v2, ok2 := ev.condAssign(el)
+		if !ok2 || n2 != n {
+			return "", "", false
+		}
+		elseVal = v2
+	default:
+		return "", "", false
+	}
+	c, _ := ev.expr(x.Cond, types["bool"])
+	r, rt := ev.expr(e, t)
+	r = ev.resolve(r, rt, t, x.Pos())
+	return n, fmt.Sprintf("(if %s then %s else %s)", c, r, elseVal), true
 }
 
 func copyVars(m map[string]ty) map[string]ty {
@@ -530,7 +612,7 @@ func translateFunc(fd *ast.FuncDecl, funcs map[string]*sig) (out string, sg *sig
 	var params []string
 	for i, n := range pn {
 		ev.vars[n] = pt[i]
-		params = append(params, fmt.Sprintf("(%s : %s)", n, pt[i].lean()))
+		params = append(params, fmt.Sprintf("(%s : %s)", ln(n), pt[i].lean()))
 	}
 	body := ""
 	if ev.resName != "" {
@@ -539,7 +621,7 @@ func translateFunc(fd *ast.FuncDecl, funcs map[string]*sig) (out string, sg *sig
 		if rt[0].width > 0 {
 			z = fmt.Sprintf("0#%d", rt[0].width)
 		}
-		body = fmt.Sprintf("let %s : %s := %s\n  ", ev.resName, rt[0].lean(), z)
+		body = fmt.Sprintf("let %s : %s := %s\n  ", ln(ev.resName), rt[0].lean(), z)
 	}
 	body += ev.block(fd.Body.List, 1)
 	pos := fset.Position(fd.Pos())
@@ -565,7 +647,7 @@ func translateFieldMethod(fd *ast.FuncDecl, m fieldMethodSpec, funcs map[string]
 	var params, rts []string
 	for i, f := range m.fields {
 		ev.vars[f] = types[m.fieldTypes[i]]
-		params = append(params, fmt.Sprintf("(%s : %s)", f, types[m.fieldTypes[i]].lean()))
+		params = append(params, fmt.Sprintf("(%s : %s)", ln(f), types[m.fieldTypes[i]].lean()))
 		rts = append(rts, types[m.fieldTypes[i]].lean())
 	}
 	ev.tuple = "(" + strings.Join(m.fields, ", ") + ")"
@@ -573,6 +655,77 @@ func translateFieldMethod(fd *ast.FuncDecl, m fieldMethodSpec, funcs map[string]
 	pos := fset.Position(fd.Pos())
 	return fmt.Sprintf("/-- `(%s).%s` (%s): the fields %s before -> after -/\ndef %s %s : %s :=\n  %s\n", m.recv, m.fn, filepath.Base(pos.Filename),
 		strings.Join(m.fields, ", "), m.leanName, strings.Join(params, " "), strings.Join(rts, " × "), body), nil
+}
+
+func findRegion(body *ast.BlockStmt, lenVar string) []ast.Stmt {
+	var found []ast.Stmt
+	ast.Inspect(body, func(n ast.Node) bool {
+		b, ok := n.(*ast.BlockStmt)
+		if !ok || found != nil {
+			return found == nil
+		}
+		for i, st := range b.List {
+			as, ok := st.(*ast.AssignStmt)
+			if !ok || as.Tok != token.DEFINE || len(as.Lhs) != 1 || len(as.Rhs) != 1 {
+				continue
+			}
+			id, ok := as.Lhs[0].(*ast.Ident)
+			call, ok2 := as.Rhs[0].(*ast.CallExpr)
+			if !ok || !ok2 || id.Name != lenVar {
+				continue
+			}
+			if f, ok := call.Fun.(*ast.Ident); !ok || f.Name != "len" {
+				continue
+			}
+			var out []ast.Stmt
+			for _, s2 := range b.List[i+1:] {
+				if a2, ok := s2.(*ast.AssignStmt); ok {
+					if _, isSel := a2.Lhs[0].(*ast.SelectorExpr); isSel {
+						break
+					}
+				}
+				out = append(out, s2)
+			}
+			found = out
+			return false
+		}
+		return true
+	})
+	return found
+}
+
+func translateRegion(fd *ast.FuncDecl, r regionSpec, funcs map[string]*sig) (out string, err error) {
+	defer func() {
+		if rec := recover(); rec != nil {
+			if te, ok := rec.(terr); ok {
+				err = fmt.Errorf("%s", te.msg)
+				return
+			}
+			panic(rec)
+		}
+	}()
+	stmts := findRegion(fd.Body, r.lenVar)
+	if len(stmts) == 0 {
+		return "", fmt.Errorf("%s: no block starting with `%s := len(…)` found", r.fn, r.lenVar)
+	}
+	ev := &env{vars: map[string]ty{}, funcs: funcs}
+	var params, rts []string
+	for i, v := range r.vars {
+		ev.vars[v] = types[r.varTypes[i]]
+		params = append(params, fmt.Sprintf("(%s : %s)", ln(v), types[r.varTypes[i]].lean()))
+	}
+	for _, v := range r.results {
+		rts = append(rts, ev.vars[v].lean())
+	}
+	var rnames []string
+	for _, v := range r.results {
+		rnames = append(rnames, ln(v))
+	}
+	ev.tuple = "(" + strings.Join(rnames, ", ") + ")"
+	body := ev.block(stmts, 1)
+	pos := fset.Position(fd.Pos())
+	return fmt.Sprintf("/-- the index arithmetic of `%s` (%s): %s after the statements that follow `%s := len(…)` -/\ndef %s %s : %s :=\n  %s\n",
+		r.fn, filepath.Base(pos.Filename), strings.Join(r.results, ", "), r.lenVar, r.leanName, strings.Join(params, " "), strings.Join(rts, " × "), body), nil
 }
 
 // guard extraction ----------------------------------------------------------------------------------------
@@ -645,7 +798,7 @@ func translateGuard(fd *ast.FuncDecl, g guardSpec, funcs map[string]*sig) (out s
 	var params []string
 	for i, v := range g.vars {
 		ev.vars[v] = types[g.varTypes[i]]
-		params = append(params, fmt.Sprintf("(%s : %s)", v, types[g.varTypes[i]].lean()))
+		params = append(params, fmt.Sprintf("(%s : %s)", ln(v), types[g.varTypes[i]].lean()))
 	}
 	// the local definitions of the same block that the condition depends on (transitively), kept in order
 	need := map[string]bool{}
@@ -696,7 +849,7 @@ func translateGuard(fd *ast.FuncDecl, g guardSpec, funcs map[string]*sig) (out s
 			return "", fmt.Errorf("%s: untyped definition of %s", g.fn, id.Name)
 		}
 		ev.vars[id.Name] = t
-		body += fmt.Sprintf("let %s : %s := %s\n  ", id.Name, t.lean(), r)
+		body += fmt.Sprintf("let %s : %s := %s\n  ", ln(id.Name), t.lean(), r)
 	}
 	c, _ := ev.expr(guard.Cond, types["bool"])
 	pos := fset.Position(guard.Pos())
@@ -772,6 +925,20 @@ func main() {
 		}
 		sb.WriteString(out + "\n")
 		names = append(names, m.leanName)
+	}
+	for _, r := range regions {
+		fd, ok := decls[r.fn]
+		if !ok {
+			errs = append(errs, fmt.Sprintf("function %s no longer exists", r.fn))
+			continue
+		}
+		out, err := translateRegion(fd, r, funcs)
+		if err != nil {
+			errs = append(errs, err.Error())
+			continue
+		}
+		sb.WriteString(out + "\n")
+		names = append(names, r.leanName)
 	}
 	for _, g := range guards {
 		fd, ok := decls[g.recv+"."+g.fn]
